@@ -1567,6 +1567,13 @@ class Engine:
                 results = [(st, v)]
             elif self.contract is not None and self.contract(callee, fr.func):
                 results = self.call_by_contract(st, fr, bi, t, callee, args)
+            elif callee.endswith(('as std::iter::Iterator>::next', 'as std::iter::DoubleEndedIterator>::next_back')) and args and \
+                    isinstance(args[0], RefV) and isinstance(self.read(st, args[0].path), IterV):
+                # `next` of a crate-local iterator type that was recognised as a range (summaries.range_like):
+                # its value is the range description, advanced like a std range
+                std = 'std::iter::Iterator::next' if callee.endswith('::next') else 'std::iter::DoubleEndedIterator::next_back'
+                ctx = CallCtx(self, st, fr, bi, t, fn, std, args, depth)
+                results = self.summ.apply(ctx)
             else:
                 ev0 = st.events
                 results = self.exec_body(st, callee, args, depth + 1)
@@ -1885,7 +1892,7 @@ class Engine:
                 return False
             if isinstance(v, IterV):
                 if v.kind == 'chars' and isinstance(v.args[0], StrV) and v.args[0].known is not None \
-                        and len(v.args[0].known) <= 8 and not v.ops:
+                        and len(v.args[0].known) <= 8 and all(o[0] == 'char_indices' for o in v.ops):
                     st.vn[('exact-iter', v.iid)] = True
                     return True
                 if v.kind == 'coll':
